@@ -72,3 +72,28 @@ Theorem C02_failure_yields_nothing :
     forall out, client_login_finish CS st pw r ctx ids ksf <> Ok out.
 Proof. exact @rejected_yields_nothing. Qed.
 Print Assumptions C02_failure_yields_nothing.
+
+
+(* the same statement at each of the 20 concrete suites: HashLaws, CodecLaws, SizeLaws and the encoding half of
+   GroupLaws are proved for them (Theory/GroupSplit.v), so the only hypothesis left is CurveLaws - seven facts of
+   elliptic-curve arithmetic (the group is a group; decompression inverts compression) *)
+From OKE Require Import CodecsConcrete GroupSplit Concrete20.
+Definition C02_wrong_password_never_accepted_statement {E Sc Pk Sk} (CS : Suite E Sc Pk Sk) : Prop :=
+  (forall a b : Sk, {a = b} + {a <> b}) ->
+  forall tape setup t1 pw creg rq t2 cred rr ids ksf upload ek spk t3 pw' clog ke1 t4 ctx slog ke2 t5 dbg out,
+    ve CS (o_h2g (oprf CS) pw (dst_hash_to_group (oprf CS))) ->
+    ve CS (o_h2g (oprf CS) pw' (dst_hash_to_group (oprf CS))) ->
+    server_setup_new CS tape = Ok (setup, t1) ->
+    client_registration_start CS t1 pw = Ok (creg, rq, t2) ->
+    server_registration_start CS setup rq cred = Ok rr ->
+    client_registration_finish CS creg t2 pw rr ids ksf = Ok (upload, ek, spk, t3) ->
+    pw' <> pw ->
+    client_login_start CS t3 pw' = Ok (clog, ke1, t4) ->
+    server_login_start CS (private_key_ops (ke CS)) t4 setup (Some (server_registration_finish upload)) ke1 cred ctx ids
+      = Ok (slog, ke2, t5, dbg) ->
+    client_login_finish CS clog pw' ke2 ctx ids ksf = Ok out ->
+    BadS CS.
+Theorem C02_wrong_password_never_accepted_at_each_of_the_20_suites :
+  all_suites (fun _ _ _ _ CS => CurveLaws CS -> C02_wrong_password_never_accepted_statement CS).
+Proof. apply at_the_20_suites. exact C02_wrong_password_never_accepted. Qed.
+Print Assumptions C02_wrong_password_never_accepted_at_each_of_the_20_suites.
